@@ -22,7 +22,7 @@ RULE = ("[plus the shared recompute-after-history monitor: this property's opera
 ASSUMPTIONS = [
 	"vectors with schema() None (empty, no dtype) claim nothing; the driver never passes dtype=",
 	"isinstance counts as belonging (generous reading); the typed subclass (_Int, _String ...) is not part of the reported dtype",
-	"Row objects are not judged (they report a row-wise summary dtype by design)",
+	"Row objects met by the universal observer are not judged; the dedicated row workload and the pool histories judge rows, row.copy() and row slices",
 ]
 EXHAUSTIVE = {"flag": False, "scope": "the dedicated weak-point matrix is complete over its kinds/forms; everything else is sampled"}
 ANCHOR_FUNCS = ["vector:Vector._elementwise_operation", "vector:Vector.__radd__", "vector:Vector._unary_operation", "vector:Vector.__lshift__",
@@ -200,12 +200,102 @@ def run_assign(chk, spec):
 	chk.observe(v, "setitem-" + ("ok" if o.ok else "failed"))
 
 
+def run_rows(chk, spec):
+	"""rows are vectors: read a row, write a cell that changes a column's nullability or kind, read rows again - the row, row.copy(), row[a:b] and
+	row arithmetic must report a dtype that covers the cells"""
+	import random
+	from decimal import Decimal
+	from fractions import Fraction
+	rng = random.Random(spec["seed"])
+	kind = spec["kind"]
+	n, c = spec["n"], spec["c"]
+	dom = common.ARITH_VALUES[kind]
+	t = Table([Vector([rng.choice(dom) for _ in range(n)], name=f"c{j}") for j in range(c)])
+	chk.judged("weak-point", ("rows", kind, n, c, tuple(spec["writes"])))
+
+	def look(tag):
+		for i in range(n):
+			o = call(lambda: t[i])
+			if not o.ok:
+				continue
+			r = o.value
+			vals = list(r)
+			msg = M.truthful(vals, r.schema())
+			if msg:
+				chk.fail("the reported dtype is truthful", f"truth/row/{tag}", f"{spec!r}: row {i} = {short(vals, 120)} reports {r.schema()!r} after {tag}: {msg}")
+				return False
+			for d in (call(r.copy), call(lambda: r[0:c]), call(lambda: r[::-1])):
+				if d.ok:
+					truth(chk, d.value if not isinstance(d.value, Row) else Vector(list(d.value), dtype=d.value.schema()), "row-derived-" + tag)
+		for r in t:
+			msg = M.truthful(list(r), r.schema())
+			if msg:
+				chk.fail("the reported dtype is truthful", f"truth/iterated-row/{tag}", f"{spec!r}: iterated row {list(r)!r} reports {r.schema()!r} after {tag}: {msg}")
+				return False
+		return True
+	if not look("construction"):
+		return
+	for wr in spec["writes"]:
+		i, j = rng.randrange(n), rng.randrange(c)
+		val = {"none": None, "wider": pool.wider(next((x for x in t.cols()[j]._underlying if x is not None), dom[0])), "same": rng.choice(dom), "str": "zz"}[wr]
+		form = rng.choice(["item", "view", "attr"])
+		if form == "item":
+			call(t.__setitem__, (i, j), val)
+		elif form == "view":
+			call(lambda: t.cols()[j].__setitem__(i, val))
+		else:
+			call(lambda: getattr(t, f"c{j}").__setitem__(i, val))
+		chk.observe(t, "row-table-after-" + wr)
+		if not look("cell-write-" + wr):
+			return
+
+
+def run_unusual(chk, spec):
+	"""numeric kinds outside the bool-int-float-complex ladder (Decimal, Fraction) next to built-in numbers"""
+	import random
+	from decimal import Decimal
+	from fractions import Fraction
+	rng = random.Random(spec["seed"])
+	U = {"Decimal": [Decimal("2.5"), Decimal("3"), Decimal("-1.25")], "Fraction": [Fraction(1, 3), Fraction(5, 2), Fraction(2)]}[spec["kind"]]
+	B = [3, 2.5, True, 1j, 0]
+	u, b = rng.choice(U), rng.choice(B)
+	n = spec["n"]
+	chk.judged("weak-point", ("unusual", spec["kind"], spec["what"], n))
+	ops = {
+		"ctor-unusual-first": lambda: Vector([u] * n + [b]),
+		"ctor-builtin-first": lambda: Vector([b] + [u] * n),
+		"ctor-with-none": lambda: Vector([u, None, b]),
+		"lshift-scalar": lambda: Vector([u] * n) << b,
+		"lshift-list": lambda: Vector([u] * n) << [b, None],
+		"lshift-vector": lambda: Vector([u] * n) << Vector([b]),
+		"add-builtin": lambda: Vector([u] * n) + (b if not isinstance(b, (float, complex)) or spec["kind"] == "Fraction" else 1),
+		"radd-builtin": lambda: 1 + Vector([u] * n),
+		"setitem-builtin": lambda: (lambda v: (v.__setitem__(0, b), v)[1])(Vector([u] * n)),
+		"agg-sum-none-group": lambda: Table([Vector(["a"] * n + ["b"], name="k"), Vector([u] * n + [None], name="x")]).aggregate(over="k", sum_over="x", max_over="x", mean_over="x"),
+		"win-sum-none-group": lambda: Table([Vector(["a"] * n + ["b"], name="k"), Vector([u] * n + [None], name="x")]).window(over="k", sum_over="x", min_over="x"),
+		"table-column": lambda: Table({"x": [u] * n + [b]}),
+		"fillna-builtin": lambda: Vector([u, None]).fillna(b),
+		"sum-mean": lambda: Vector([Vector([u] * n).sum(), 0]),
+		"neg-abs": lambda: (-Vector([u] * n), abs(Vector([u] * n))),
+		"mul-scalar": lambda: Vector([u] * n) * 2,
+	}
+	o = call(ops[spec["what"]])
+	if o.ok:
+		chk.observe(o.value, "unusual-" + spec["what"])
+	else:
+		chk.counters["weak-point-raised"] += 1
+
+
+UNUSUAL_OPS = ["ctor-unusual-first", "ctor-builtin-first", "ctor-with-none", "lshift-scalar", "lshift-list", "lshift-vector", "add-builtin", "radd-builtin", "setitem-builtin",
+	"agg-sum-none-group", "win-sum-none-group", "table-column", "fillna-builtin", "sum-mean", "neg-abs", "mul-scalar"]
+
+
 def run_history(chk, spec):
 	m = pool.Machine(chk, spec["seed"], spec["nsteps"], spec.get("profile", "mixed"))
 	m.run()
 
 
-RUNNERS = {"weak": run_weak, "assign": run_assign, "history": run_history, "recompute": recompute.runner("C03")}
+RUNNERS = {"rows": run_rows, "unusual": run_unusual, "weak": run_weak, "assign": run_assign, "history": run_history, "recompute": recompute.runner("C03")}
 
 WEAK_OPS = ["radd-scalar", "radd-list", "rsub-scalar", "rmul-scalar", "rtruediv", "rpow", "add-wider-scalar", "add-wider-vector", "neg", "pos", "abs", "invert",
 	"lshift-wider", "lshift-none", "lshift-str", "lshift-list-mixed", "lshift-vector", "rlshift", "cast-str", "cast-float", "cast-int", "cast-bool", "cast-callable", "cast-date-from-iso", "cast-datetime-from-iso", "cast-date-of-dates", "new-empty", "new-empty-typesafe",
@@ -243,6 +333,18 @@ def run(chk):
 						if not chk.mine(idx):
 							continue
 						chk.case("assign", {"kind": kind, "form": form, "nullable": nullable, "specials": specials, "n": rng.choice([3, 4, 5]), "m": 3, "seed": rng.randrange(10**9)}, "weak-assign")
+	for kind in ("int", "float", "str", "date", "bool"):
+		for writes in (["none"], ["wider"], ["same", "none"], ["none", "wider"], ["wider", "none", "same"], ["str"], ["same"]):
+			for n, c in ((1, 2), (3, 2), (2, 3)):
+				idx += 1
+				if chk.mine(idx):
+					chk.case("rows", {"kind": kind, "writes": writes, "n": n, "c": c, "seed": rng.randrange(10**9)}, "rows")
+	for kind in ("Decimal", "Fraction"):
+		for what in UNUSUAL_OPS:
+			for n in (1, 2):
+				idx += 1
+				if chk.mine(idx):
+					chk.case("unusual", {"kind": kind, "what": what, "n": n, "seed": rng.randrange(10**9)}, "unusual")
 	for i in range(80 if chk.quick() else 300):
 		chk.case("history", {"seed": rng.randrange(10**9), "nsteps": rng.choice([15, 30]) if chk.quick() else rng.choice([15, 30, 60]), "profile": rng.choice(["mixed", "tables"])}, "history")
 	for other in ("C05", "C06", "C07", "C09", "C10", "C12", "C13", "C14", "C19"):
